@@ -207,6 +207,15 @@ def stepIter (st : St) (cmd : List String) (got : String) : Option (St × Verdic
   | ["iterate", x, k] => some (seqCmd st "iterate" x k got)
   | ["values", x, k] => some (seqCmd st "values" x k got)
   | ["backward", x, k] => some (seqCmd st "backward" x k got)
+  | ["seqlate", kind, x, v] =>
+    match st.bm[x]?, nat? v with
+    | some s, some w =>
+      if w ≥ U32 || !(kind == "ranges" || kind == "values" || kind == "backward") then some (skipV st got)
+      else
+        let s' := BSet.add s w
+        let d := digest s'
+        some ({ st with bm := st.bm.insert x s' }, expect (d ++ " " ++ d ++ " " ++ d) got)
+    | _, _ => some (skipV st got)
   | ["ranges", x, k] => some (seqCmd st "ranges" x k got)
   | ["unset", x, a, b, k] =>
     match st.bm[x]?, nat? a, nat? b, kArg? k with
